@@ -16,7 +16,8 @@
    Variants of clauses 12 / 35 by the kinds of users of the offending object: 212 = also reached from
    /Outlines (not opened with the document), 112 = the same for an object stream holding the needed
    object, 312 = an object stream without outline users; 235 = also reached from a catalog key other
-   than /Pages and the open-document keys or from a trailer key, 135 = the same for an object stream,
+   than /Pages and the open-document keys or from a trailer key, 135 = the same for an object stream
+   (which may also hold page tree nodes),
    335 = an object stream without such users; 412 / 435 = also reached from the /Thumb of the SAME page
    (first page / later page). *)
 From Coq Require Import String Ascii.
@@ -366,6 +367,7 @@ Section HintClauses.
   Variable outline_set : list N.          (* containers of what /Outlines reaches *)
   Variable doclevel_set : list N.         (* containers of what catalog keys other than /Pages and the open-document keys, and trailer keys, reach *)
   Variable thumb_sets : list (list N).    (* per page: containers of what the page's own /Thumb reaches *)
+  Variable pagestree_set : list N.        (* containers of the page tree nodes (catalog /Pages, pages not entered) *)
   Variable use_outlines : bool.
   Variable first_page_obj_off : N.
 
@@ -417,7 +419,7 @@ Section HintClauses.
                                       | Some o => match af_off o with
                                                   | Some a => af_when (first_page_obj_off <=? a)
                                                                 (af_err (if af_has_type n_ObjStm (so_val o)
-                                                                         then (if af_mem c doclevel_set then 135 else 335)
+                                                                         then (if af_mem c doclevel_set || af_mem c pagestree_set then 135 else 335)
                                                                          else if af_mem c doclevel_set then 235
                                                                          else if af_mem c (nth (N.to_nat i) thumb_sets []) then 435 else 35) i c)
                                                   | None => []
@@ -632,6 +634,7 @@ Definition lin_check (file : list N) : af_report :=
                                                                              | _ => [] end
                                                                  | None => [] end) (match pages with Some ps => ps | None => [] end)) in
                       let thumb0 := hd [] thumbs in
+                      let ptree := match dict_get catd afn_Pages with Some v => cont (af_closure fuel objs (af_refs v) []) | None => [] end in
                       let e12 := flat_map (fun c => match af_find objs c with
                                                     | Some o => match af_off o with
                                                                 | Some a => af_when (E <=? a) (af_err (if af_mem c outl && negb use_outl
@@ -657,7 +660,7 @@ Definition lin_check (file : list N) : af_report :=
                                   | None => mk (base ++ af_err 21 0 0) n78 data (hS, match Oo with Some o => o | None => 0 end) None []
                                   | Some (hp, hs, hg, ends) =>
                                       let p0off := match af_find objs p0 with Some o => match af_off o with Some a => a | None => 0 end | None => 0 end in
-                                      let '(herrs, meas) := af_hint_clauses objs h0 h1 ps needs outl doclevel thumbs use_outl p0off pO hp hs hg ends hS Oo in
+                                      let '(herrs, meas) := af_hint_clauses objs h0 h1 ps needs outl doclevel thumbs ptree use_outl p0off pO hp hs hg ends hS Oo in
                                       mk (base ++ herrs) n78 data (hS, match Oo with Some o => o | None => 0 end) (Some (hp, hs, hg)) meas
                                   end
                               | _, _ => mk (base ++ af_err 20 0 0) n78 [] (0, 0) None []
